@@ -176,6 +176,8 @@ def rule_row_shape(ctx: Ctx, repo: Repo) -> None:
         tup = params[0].fields["items"][0]
     elif params and isinstance(params[0], R) and params[0].kind == "comp" and not params[0].fields["ifs"]:
         tup = params[0].fields["elt"]
+    if isinstance(tup, R) and tup.kind == "nt":
+        tup = K(tuple(tup.fields[n_] for n_ in tup.fields["__fields__"].v))  # a NamedTuple row is bound like the tuple of its fields
     if not ctx.check(isinstance(tup, K) and isinstance(tup.v, tuple) and len(tup.v) == len(target_cols), "R-C08.2", sc.fi.fq,
                      "each inserted row is a tuple with one value per column", construct=f"{tup}"):
         return
@@ -196,9 +198,16 @@ def rule_row_shape(ctx: Ctx, repo: Repo) -> None:
         ctx.check(set(sel.columns) <= set(cols), "R-C08.2", f"{DM.DB}.make_query", "every selected column exists in the table", construct=f"{sel.columns}")
     flt = repo.fn(DM.DB, "SQLiteStore.filter")
     ctx.functions.add(flt.fq)
-    star = [c for c in calls_in(flt.node) if dotted(c.func) == "CallTraceRow"]
-    ctx.check(len(star) == 1 and len(star[0].args) == 1 and isinstance(star[0].args[0], ast.Starred) and not star[0].keywords, "R-C08.2", flt.fq,
-              "filter builds CallTraceRow(*row) from each fetched row (positional, all columns)", construct="; ".join(norm(c) for c in star))
+    fps = flt.positional_params()
+    sel_cols = init.positional_params()[1:]
+    rows = K(tuple(K(tuple(S(f"r{i}.{c}") for c in sel_cols)) for i in range(2)))
+    scf = DM.DbScenario(repo, "SQLiteStore.filter", {"table": K("T")})
+    scf.rows = rows
+    of = scf.run({fps[1]: S("module"), fps[2]: S("prefix"), fps[3]: S("limit")})
+    res = of[0].freeze(of[0].term[1]) if len(of) == 1 and of[0].term and of[0].term[0] == "return" else None
+    want = R("list", items=tuple(R("row_object", args=K(tuple(r.v))) for r in rows.v))
+    ctx.check(res == want, "R-C08.2", flt.fq,
+              "filter builds CallTraceRow(*row) from each fetched row (positional, all columns)", construct=str(res)[:200])
     # __init__ stores each parameter under its own name; from_trace passes them in order; to_trace reads them
     init = repo.method(repo.cls(ENC, "CallTraceRow"), "__init__")
     for p in init.positional_params()[1:]:
